@@ -80,14 +80,924 @@ Lemma ver_dict_first dv dv' pre S : (length pre <= 1)%nat -> ver' true dv pre = 
 Proof. intros Hl E. destruct pre as [|p [|q pre]]; [exact E|exact E|cbn in Hl; lia]. Qed.
 
 (** ** fuel: a measure that every loop iteration decreases *)
-Definition idxlen (st : rstate) : nat :=
-  if r_eof st then 0%nat else match r_idx st with [] => length cks | l => length l end.
-Definition mu (st : rstate) : nat :=
-  (3 * length (r_rest st) + 2 * idxlen st + 2 * (match r_data st with [] => 0 | _ => 1 end)
-   + (match r_dc st with [] => 0 | _ => 1 end))%nat.
-Definition fuel_bound : nat := (3 * length b + 2 * length cks + 1)%nat.
+Definition idxlen (st : rstate) : N :=
+  if r_eof st then 0 else match r_idx st with [] => N.of_nat (length cks) | l => N.of_nat (length l) end.
+Definition mu (st : rstate) : N :=
+  3 * len (r_rest st) + 2 * idxlen st + 2 * (match r_data st with [] => 0 | _ => 1 end)
+  + (match r_dc st with [] => 0 | _ => 1 end).
+Definition fuel_bound : nat := N.to_nat (3 * len b + 2 * N.of_nat (length cks) + 1).
 
 (** the first entry is not an (empty, skipped) dictionary entry once the pointer stands on it *)
 Definition Extra (st : rstate) : Prop :=
   forall c0 cs, cks = c0 :: cs -> r_idx st = c0 :: cs -> skip0 c0 = false.
+
+Lemma suffix_shorter (pre : list chunk) c next : pre ++ c :: next <> next.
+Proof. intros E. apply (f_equal (@length chunk)) in E. rewrite app_length in E. cbn in E. lia. Qed.
+
+Lemma open_mu : mu (open_state hd f) < N.of_nat fuel_bound.
+Proof. unfold mu, idxlen, fuel_bound, open_state. rsimpl. rewrite N2Nat.id. unfold body, data_offset. lia. Qed.
+
+Lemma open_Extra : Extra (open_state hd f).
+Proof. intros c0 cs _ E. discriminate. Qed.
+
+Lemma Extra_set_dc st v x : Extra st -> Extra (set_dc st v x).
+Proof. intros He c0 cs E1 E2. exact (He c0 cs E1 E2). Qed.
+
+Lemma mu_take st dl x :
+  mu (set_dc st (dropN dl (r_dc st)) x) <= mu st /\
+  (0 < len (r_dc st) -> len (r_dc st) <= dl -> mu (set_dc st (dropN dl (r_dc st)) x) < mu st).
+Proof.
+  unfold mu, idxlen. dst st. rsimpl. split.
+  - destruct dc as [|y dc]; [rewrite dropN_nil; lia|]. destruct (dropN dl (y :: dc)); lia.
+  - intros Hd Hl. rewrite dropN_all by exact Hl. destruct dc as [|y dc]; [cbn in Hd; lia|lia].
+Qed.
+
+Lemma ver_prefix first dv pre rest S :
+  ver' first dv (pre ++ rest) = Some S -> exists S1 S2, ver' first dv pre = Some S1 /\ S = S1 ++ S2.
+Proof.
+  revert first S. induction pre as [|p pre IH]; intros first S E; cbn [app ver] in *.
+  - exists [], S. split; reflexivity.
+  - destruct (chunk_ok H hd b first p); [|discriminate]. destruct (dec1' first dv p) as [dp|]; [|discriminate].
+    destruct (ver' false dv (pre ++ rest)) as [r|] eqn:Er; [|discriminate]. injection E as <-.
+    destruct (IH false r Er) as (S1 & S2 & E1 & ->). rewrite E1. exists (dp ++ S1), S2. split; [reflexivity|now rewrite app_assoc].
+Qed.
+
+Section ProgressZ.
+Hypothesis Hz : is_zstd hd = true.
+Variable d0 D : bytes.
+Hypothesis Hspec : ver' true (dictv d0) cks = Some (d0 ++ D).
+Hypothesis Hfirst : forall c0 cs, cks = c0 :: cs -> dec1' true None c0 = Some d0.
+
+Lemma d0_len c0 cs : cks = c0 :: cs -> len d0 = c_ulen c0.
+Proof.
+  intros E. specialize (Hfirst c0 cs E). unfold dec1 in Hfirst. cbn [andb] in Hfirst. destruct (skip0 c0) eqn:Hsk.
+  - injection Hfirst as <-. unfold skip0 in Hsk. apply andb_true_iff in Hsk. destruct Hsk as [_ Hu]. apply N.eqb_eq in Hu. now rewrite Hu.
+  - rewrite Hz in Hfirst. now apply decode_zstd_len in Hfirst.
+Qed.
+
+Notation RUNz := (RUN H zdecomp hd f).
+Notation Jz' := (Jz H zdecomp hd f).
+
+Lemma chunk_prog_z imp n del st out1 c next :
+  0 < n -> r_err st = 0 -> r_started st = true -> RUNz imp del st -> r_dc st = [] -> r_idx st = c :: next ->
+  Extra st ->
+  (imp = true -> len del < first_ulen hd) ->
+  (imp = false -> first_ulen hd = 0 \/ r_dict st <> None) ->
+  match step_chunk H zdecomp hd (negb imp) n st out1 false with
+  | SCont st' out' frd' => frd' = false /\ mu st' < mu st /\ Extra st'
+  | SDone (ROk _) _ => False
+  | SDone (RErr _) _ => False
+  | SDone RFuel _ => False
+  end.
+Proof.
+  intros Hpos He Hst (pre & Hck & Heof & Hver & Hloc & Hb & Hrest & Hdata & Hch & Hfh & Hpd & Himp & Husr) Hdc Hidx Hex Hil Hu.
+  dst st. subst idx dc err started. unfold cur_clen in Hloc. rsimpl.
+  destruct (chunk_sizes H zdecomp hd f Hstarts Hsizes pre c next Hck) as [Hlt Hstart].
+  set (off := data_total pre) in *.
+  assert (Heo : eof = false).
+  { destruct eof; [|reflexivity]. destruct Heof as [Hx _]. specialize (Hx eq_refl). discriminate. }
+  subst eof.
+  pose proof Hspec as Hsp. rewrite Hck in Hsp. destruct (ver_mid true (dictv d0) pre c next _ Hsp) as [Hcok (S1 & d & S2 & Hs1 & Hdec & HS)].
+  assert (Hsto : stored b c = sub b off (c_clen c)) by (unfold stored; now rewrite Hstart).
+  assert (Hbound : off + c_clen c <= len b).
+  { unfold chunk_ok in Hcok. apply andb_true_iff in Hcok. destruct Hcok as [Hb1 _]. apply N.leb_le in Hb1. lia. }
+  assert (Hnoskip : hflag true pre && skip0 c = false).
+  { destruct pre as [|p0 pre0]; [|reflexivity]. cbn [hflag andb]. apply (Hex c next); [exact Hck|reflexivity]. }
+  unfold step_chunk. rsimpl.
+  destruct (N.eqb_spec loc (c_clen c)) as [Hend|Hmid].
+  - subst loc. unfold end_dchunk, validate_current. rsimpl. rewrite Hch.
+    assert (Hok : (if c_clen c =? 0 then all_zero (c_digest c)
+                   else bytes_eqb (H (h_chash hd) (sub b off (c_clen c))) (c_digest c)) = true).
+    { unfold chunk_ok in Hcok. apply andb_true_iff in Hcok. destruct Hcok as [_ Hh]. rewrite Hsto in Hh.
+      destruct (N.eqb_spec (c_clen c) 0) as [Hc0|]; [|exact Hh].
+      apply orb_true_iff in Hh. destruct Hh as [Hh|Hh]; [|exact Hh]. exfalso.
+      apply andb_true_iff in Hh. destruct Hh as [Hfl Hu0]. rewrite Hfl in Hnoskip. cbn [andb] in Hnoskip.
+      unfold skip0 in Hnoskip. rewrite Hu0, Hc0 in Hnoskip. discriminate. }
+    rewrite Hok. unfold backend_end_dchunk. rewrite zstd_true by exact Hz. unfold set_chash. rsimpl.
+    (* the dictionary the code uses is the one the specification uses *)
+    unfold dec1 in Hdec. rewrite Hnoskip in Hdec.
+    assert (Hdd : (if negb imp then dict else None) = (if hflag true pre then None else dictv d0)).
+    { destruct pre as [|p0 pre0]; cbn [hflag].
+      - rewrite (Hpd eq_refl). now destruct imp.
+      - assert (Hp0 : exists cs0, cks = p0 :: cs0) by (rewrite Hck; cbn; eauto). destruct Hp0 as (cs0 & Ep0).
+        pose proof (d0_len p0 cs0 Ep0) as Hl0. assert (Hfu : first_ulen hd = c_ulen p0) by (unfold first_ulen; now rewrite Ep0).
+        cbn [ver] in Hver. rewrite app_nil_r in Hver.
+        destruct (chunk_ok H hd b true p0); [|discriminate].
+        assert (Hdp : dec1' true dict p0 = Some d0) by (rewrite <- (Hfirst p0 cs0 Ep0); reflexivity).
+        rewrite Hdp in Hver. destruct (ver' false dict pre0) as [r0|]; [|discriminate]. injection Hver as Hv.
+        destruct imp; cbn [negb].
+        + exfalso. specialize (Hil eq_refl). destruct (Himp eq_refl) as [_ Hlen]. destruct pre0; [|cbn in Hlen; lia].
+          rewrite <- Hv, len_app in Hil. lia.
+        + specialize (Husr eq_refl ltac:(discriminate)). unfold dictv.
+          destruct (N.eqb_spec (first_ulen hd) 0) as [E0|E0]; [exact Husr|].
+          destruct Husr as (d1 & r1 & E1 & E2 & E3). rewrite E3. f_equal. rewrite app_nil_r in E1.
+          assert (Ht : takeN (first_ulen hd) (d1 ++ r1) = takeN (first_ulen hd) (d0 ++ r0)) by (now rewrite <- E1, Hv).
+          rewrite !takeN_app_exact in Ht by congruence. exact Ht. }
+    rewrite Hdd. unfold decode_chunk in Hdec. rewrite Hz, Hsto, <- Hdata in Hdec.
+    destruct (zdecomp (if hflag true pre then None else dictv d0) data (c_ulen c)) as [x|]; [|discriminate].
+    destruct (N.eqb_spec (len x) (c_ulen c)) as [Hlx|]; [|discriminate].
+    unfold set_data, set_idx, set_chash. rsimpl.
+    assert (Hmu : forall eof', (eof' = true <-> next = []) ->
+       mu (mkR rest [] 0 next eof' ([] ++ x) 0 (Some []) fhash dict true 0) <
+       mu (mkR rest data (c_clen c) (c :: next) false [] dcloc (Some (sub b off (c_clen c))) fhash dict true 0)).
+    { intros eof' He'. unfold mu, idxlen. rsimpl. cbn [length].
+      destruct eof'.
+      - destruct (x); destruct data; cbn [app]; lia.
+      - destruct next as [|c1 nx]; [destruct He' as [_ Hx]; specialize (Hx eq_refl); discriminate|].
+        cbn [length]. destruct x; destruct data; cbn [app]; lia. }
+    assert (Hext : forall eof', Extra (mkR rest [] 0 next eof' ([] ++ x) 0 (Some []) fhash dict true 0)).
+    { intros eof' c0 cs E1 E2. rsimpl. exfalso. rewrite Hck in E1. rewrite <- E2 in E1. exact (suffix_shorter pre c next E1). }
+    destruct next as [|c1 next1]; rsimpl; (split; [reflexivity|]); split.
+    + apply Hmu. split; reflexivity.
+    + apply Hext.
+    + apply Hmu. split; discriminate.
+    + apply Hext.
+  - cbv zeta. rsimpl. rewrite Hch.
+    set (rs := if c_clen c <? loc + n then u64 (c_clen c + two64 - loc) else n).
+    assert (Hrs : 0 < rs /\ rs <= c_clen c - loc).
+    { unfold rs. destruct (N.ltb_spec (c_clen c) (loc + n)).
+      - assert (Hl : c_clen c < two64) by lia. unfold u64, two64 in *. lia.
+      - lia. }
+    fold rs.
+    remember (takeN rs rest) as src eqn:Esrc.
+    assert (Hls : len src = rs).
+    { subst src rest. rewrite len_takeN, len_dropN. fold off. lia. }
+    assert (Hne : src <> []) by (intros ->; cbn in Hls; lia).
+    rewrite Hls, N.ltb_irrefl.
+    assert (Hfin : forall ch fh,
+              mu (mkR (dropN rs rest) (data ++ src) (loc + rs) (c :: next) false [] dcloc ch fh dict true 0) <
+              mu (mkR rest data loc (c :: next) false [] dcloc (Some (sub b off loc)) fhash dict true 0) /\
+              Extra (mkR (dropN rs rest) (data ++ src) (loc + rs) (c :: next) false [] dcloc ch fh dict true 0)).
+    { intros ch fh. split.
+      - unfold mu, idxlen. rsimpl. rewrite len_dropN.
+        assert (Hlr : rs <= len rest) by (rewrite <- Hls, Esrc, len_takeN; lia).
+        destruct data; destruct src; cbn [app]; try congruence; lia.
+      - intros c0 cs E1 E2. rsimpl. apply (Hex c0 cs E1 E2). }
+    destruct (uflag hd) eqn:Huf.
+    + rsimpl. rewrite (hash_update_some _ src Hne). rsimpl. split; [reflexivity|]. apply Hfin.
+    + rewrite (Hfh eq_refl). rsimpl. repeat (rewrite (hash_update_some _ src Hne); rsimpl). split; [reflexivity|]. apply Hfin.
+Qed.
+
+Lemma step_prog_z imp n del0 st out :
+  0 < n -> len out < n ->
+  (imp = true -> n = first_ulen hd /\ del0 = []) ->
+  (imp = false -> first_ulen hd = 0 \/ r_dict st <> None) ->
+  Jz' imp (del0 ++ out) st -> Extra st ->
+  match comp_step H zdecomp hd (negb imp) n st out false with
+  | SCont st' out' frd' => frd' = false /\ mu st' < mu st /\ Extra st'
+  | SDone (ROk o) st' => mu st' <= mu st /\ Extra st' /\ len o <= n
+  | SDone (RErr _) _ => False
+  | SDone RFuel _ => False
+  end.
+Proof.
+  intros Hpos Hlo Hi Hu HJ Hex.
+  unfold comp_step. cbv zeta.
+  set (dl := N.min (n - len out) (len (r_dc st))).
+  pose proof (Jz_take H zdecomp hd f imp (del0 ++ out) st dl (r_dcloc st + dl) HJ) as HJ1.
+  rewrite <- app_assoc in HJ1.
+  pose proof (mu_take st dl (r_dcloc st + dl)) as [Hmu1 Hmu2].
+  pose proof (Extra_set_dc st (dropN dl (r_dc st)) (r_dcloc st + dl) Hex) as Hex1.
+  set (out1 := out ++ takeN dl (r_dc st)) in *.
+  set (st1 := set_dc st (dropN dl (r_dc st)) (r_dcloc st + dl)) in *.
+  assert (Hd1 : r_dict st1 = r_dict st) by reflexivity.
+  assert (Hlo1 : len out1 = len out + dl).
+  { unfold out1. rewrite len_app, len_takeN. fold dl. unfold dl. lia. }
+  destruct (N.eqb_spec (len out1) n) as [Hfull|Hnf].
+  { split; [assumption|]. split; [assumption|lia]. }
+  destruct (N.ltb_spec 0 dl) as [Hdl|Hdl].
+  { split; [reflexivity|]. split; [|exact Hex1]. apply Hmu2; unfold dl in *; lia. }
+  assert (Hdc : r_dc st = []).
+  { apply len_0_nil. unfold dl in Hdl. lia. }
+  assert (Hdc1 : r_dc st1 = []) by (unfold st1; rsimpl; rewrite Hdc; apply dropN_nil).
+  destruct (r_eof st1) eqn:Heof1.
+  { split; [assumption|]. split; [assumption|unfold dl in *; lia]. }
+  assert (Hdec : (if 0 <? len (r_data st1) then decompress hd st1 else st1) = st1).
+  { unfold decompress. rewrite zstd_true by exact Hz. now destruct (0 <? len (r_data st1)). }
+  rewrite Hdec. rewrite !N.eqb_refl. cbn [negb orb].
+  rewrite <- Hd1 in Hu.
+  assert (Hil : imp = true -> len (del0 ++ out1) < first_ulen hd).
+  { intros E. destruct (Hi E) as [-> ->]. cbn [app]. lia. }
+  clearbody st1 out1. clear HJ Hdc Hdec Hd1 dl Hdl Hmu2 Hlo1.
+  destruct HJ1 as (He & Hs & [HN|HR]).
+  - destruct HN as (A1 & A2 & A3 & A4 & A5 & A6 & A7 & A8 & A9).
+    dst st1. subst idx eof loc data dc rest dict err started.
+    unfold step_init. rsimpl.
+    assert (Hexc : exists c0 cs, h_chunks hd = c0 :: cs).
+    { pose proof Hnonempty as Hq. destruct (h_chunks hd) as [|c0 cs]; [congruence|eauto]. }
+    destruct Hexc as (c0 & cs & Eck). rewrite Eck.
+    apply app_eq_nil in A6. destruct A6 as [-> ->].
+    change (0 <? 0) with false. cbv iota.
+    destruct (chunk_sizes H zdecomp hd f Hstarts Hsizes [] c0 cs Eck) as [_ Hst0]. cbn in Hst0.
+    fold (skip0 c0).
+    remember (if skip0 c0 then cs else c0 :: cs) as idx0 eqn:Eidx.
+    set (pre := if skip0 c0 then [c0] else []).
+    unfold set_chash, set_idx. rsimpl.
+    set (st3 := mkR b [] 0 idx0 false [] dcloc (Some []) fhash None true 0).
+    assert (Hmu3 : mu st3 <= mu st).
+    { etransitivity; [|exact Hmu1]. unfold mu, idxlen, st3. rsimpl. rewrite Eck.
+      destruct idx0 as [|ci nx]; [lia|]. destruct (skip0 c0); [subst cs|injection Eidx as <- <-]; cbn [length]; lia. }
+    assert (Hex3 : Extra st3).
+    { intros c0' cs' E1 E2. unfold st3 in E2. rsimpl. rewrite Eck in E1. injection E1 as <- <-.
+      destruct (skip0 c0); [|reflexivity]. exfalso. apply (f_equal (@length chunk)) in E2. rewrite Eidx in E2. cbn in E2. lia. }
+    destruct idx0 as [|c next].
+    { unfold step_chunk. subst st3. rsimpl. split; [assumption|]. split; [assumption|cbn; lia]. }
+    assert (HRz : RUNz imp [] st3).
+    { exists pre. subst st3. rsimpl. unfold cur_clen. rsimpl.
+      assert (Ht : data_total pre = 0).
+      { unfold pre. destruct (skip0 c0) eqn:Hsk; [|reflexivity]. unfold skip0 in Hsk. apply andb_true_iff in Hsk.
+        destruct Hsk as [Hc0 _]. apply N.eqb_eq in Hc0. cbn. lia. }
+      rewrite Ht. cbn [N.add].
+      split. { rewrite Eidx, Eck. unfold pre. destruct (skip0 c0); reflexivity. }
+      split. { split; discriminate. }
+      split.
+      { unfold pre. destruct (skip0 c0) eqn:Hsk; [|reflexivity]. cbn [ver]. unfold dec1. rewrite Hsk. cbn [andb].
+        unfold chunk_ok. rewrite Hst0. unfold skip0 in Hsk. apply andb_true_iff in Hsk. destruct Hsk as [Hc0 Hu0].
+        rewrite Hc0, Hu0. apply N.eqb_eq in Hc0. rewrite Hc0. cbn [N.add andb orb].
+        destruct (N.leb_spec 0 (len b)); [reflexivity|lia]. }
+      split; [lia|]. split; [lia|]. split; [reflexivity|]. split; [reflexivity|]. split; [reflexivity|].
+      split; [exact A8|]. split; [reflexivity|]. split.
+      - intros _. split; [reflexivity|]. unfold pre. destruct (skip0 c0); cbn; lia.
+      - intros _ Hp. unfold pre in Hp. destruct (skip0 c0) eqn:Hsk; [|congruence].
+        unfold skip0 in Hsk. apply andb_true_iff in Hsk. destruct Hsk as [_ Hu0].
+        unfold first_ulen. rewrite Eck, Hu0. reflexivity. }
+    pose proof (chunk_prog_z imp n [] st3 [] c next Hpos eq_refl eq_refl HRz eq_refl eq_refl Hex3) as Hc.
+    cbn [app] in Hil. specialize (Hc Hil Hu).
+    destruct (step_chunk H zdecomp hd (negb imp) n st3 [] false) as [st' out' frd'|[o| |] st']; try exact Hc; try contradiction.
+    destruct Hc as (-> & Hc1 & Hc2). split; [reflexivity|]. split; [lia|exact Hc2].
+  - assert (Hcopy := HR).
+    destruct HR as (pre & B1 & B2 & _).
+    destruct (r_idx st1) as [|c next] eqn:Eidx.
+    { destruct B2 as [_ B2]. rewrite (B2 eq_refl) in Heof1. discriminate. }
+    unfold step_init. rewrite Eidx.
+    pose proof (chunk_prog_z imp n (del0 ++ out1) st1 out1 c next Hpos He Hs Hcopy Hdc1 Eidx Hex1 Hil Hu) as Hc.
+    destruct (step_chunk H zdecomp hd (negb imp) n st1 out1 false) as [st' out' frd'|[o| |] st']; try exact Hc; try contradiction.
+    destruct Hc as (-> & Hc1 & Hc2). split; [reflexivity|]. split; [lia|exact Hc2].
+Qed.
+
+Lemma loop_prog_z imp n del0 : forall fuel st out,
+  mu st < N.of_nat fuel ->
+  0 < n -> len out < n ->
+  (imp = true -> n = first_ulen hd /\ del0 = []) ->
+  (imp = false -> first_ulen hd = 0 \/ r_dict st <> None) ->
+  Jz' imp (del0 ++ out) st -> Extra st ->
+  match comp_loop H zdecomp hd fuel (negb imp) n st out false with
+  | (ROk o, st') => Jz' imp (del0 ++ o) st' /\ r_dict st' = r_dict st /\ (len o < n -> finished hd st') /\
+                    mu st' <= mu st /\ Extra st' /\ len o <= n
+  | (RErr _, _) => False
+  | (RFuel, _) => False
+  end.
+Proof.
+  induction fuel as [|fuel IH]; intros st out Hmu Hpos Hlo Hi Hu HJ Hex; [lia|]. cbn [comp_loop].
+  pose proof (step_inv H zdecomp hd f Hstarts Hsizes Hz Hnonempty imp n del0 st out false Hpos Hlo Hi Hu HJ) as Hs.
+  pose proof (step_prog_z imp n del0 st out Hpos Hlo Hi Hu HJ Hex) as Hp.
+  destruct (comp_step H zdecomp hd (negb imp) n st out false) as [st' out' frd'|[o| |] st']; try contradiction.
+  - destruct Hs as (HJ' & Hlo' & Hd'). destruct Hp as (-> & Hm' & Hex').
+    assert (Hu' : imp = false -> first_ulen hd = 0 \/ r_dict st' <> None) by (rewrite Hd'; exact Hu).
+    pose proof (IH st' out' ltac:(lia) Hpos Hlo' Hi Hu' HJ' Hex') as Hr.
+    destruct (comp_loop H zdecomp hd fuel (negb imp) n st' out' false) as [[o| |] st'']; try contradiction.
+    destruct Hr as (R1 & R2 & R3 & R4 & R5 & R6). split; [exact R1|]. split; [congruence|]. split; [exact R3|]. split; [lia|]. split; [exact R5|exact R6].
+  - destruct Hs as (R1 & R2 & R3). destruct Hp as (P1 & P2 & P3).
+    split; [exact R1|]. split; [exact R2|]. split; [exact R3|]. split; [exact P1|]. split; [exact P2|exact P3].
+Qed.
+
+Notation CIz := (CI H zdecomp hd f).
+
+Lemma import_prog_z fuel st :
+  mu st < N.of_nat fuel ->
+  r_err st = 0 -> r_started st = true -> NS hd f [] st -> 0 < first_ulen hd -> Extra st ->
+  match import_dict H zdecomp hd fuel st with
+  | (true, st') => mu st' <= mu st /\ Extra st'
+  | (false, _) => False
+  end.
+Proof.
+  intros Hmu He Hs HN Hfu Hex. unfold import_dict. rewrite He. change (0 <? 0) with false. cbv iota.
+  destruct (N.eqb_spec (first_ulen hd) 0) as [E|_]; [lia|].
+  unfold comp_read_nd. rewrite He, Hs. change (0 <? 0) with false. cbn [negb]. cbv iota.
+  destruct (N.eqb_spec (first_ulen hd) 0) as [E|_]; [lia|].
+  assert (HJ : Jz' true ([] ++ []) st) by (split; [exact He|split; [exact Hs|now left]]).
+  pose proof (loop_prog_z true (first_ulen hd) [] fuel st [] Hmu Hfu ltac:(cbn; lia) ltac:(intros _; split; reflexivity)
+                ltac:(intros; discriminate) HJ Hex) as Hl.
+  cbn [negb] in Hl.
+  destruct (comp_loop H zdecomp hd fuel false (first_ulen hd) st [] false) as [[d| |] st1]; try contradiction.
+  destruct Hl as (HJ1 & Hd1 & Hf & Hm1 & Hex1 & Hle). cbn [app] in HJ1.
+  assert (Hex0 : exists c0 cs, h_chunks hd = c0 :: cs).
+  { pose proof Hnonempty as Hq. destruct (h_chunks hd) as [|c0 cs]; [congruence|eauto]. }
+  destruct Hex0 as (c0 & cs & Eck).
+  assert (Hfu0 : first_ulen hd = c_ulen c0) by (unfold first_ulen; now rewrite Eck).
+  destruct (N.eqb_spec (len d) (first_ulen hd)) as [Hld|Hld].
+  - destruct HJ1 as (He1 & Hs1 & _). unfold comp_reset, comp_init. rsimpl. rewrite He1. change (0 <? 0) with false. cbv iota. rsimpl.
+    split.
+    + etransitivity; [|exact Hm1]. unfold mu, idxlen. dst st1. unfold set_started, set_dict, set_dc. rsimpl. destruct dc; lia.
+    + intros a l E1 E2. exact (Hex1 a l E1 E2).
+  - exfalso. assert (Hlt : len d < first_ulen hd) by lia.
+    specialize (Hf Hlt). destruct HJ1 as (_ & _ & [HN1|HR1]).
+    + destruct Hf as [[Hx _]|(c0' & Eck' & Hsk & _)].
+      * destruct HN1 as (_ & Hx2 & _). congruence.
+      * rewrite Eck in Eck'. injection Eck' as <- _. unfold skip0 in Hsk. apply andb_true_iff in Hsk. destruct Hsk as [_ Hu0].
+        apply N.eqb_eq in Hu0. lia.
+    + destruct HR1 as (pre & B1 & B2 & B3 & B4 & B5 & B6 & B7 & B8 & B9 & B10 & B11 & B12).
+      destruct Hf as [[Heof Hdc]|(c0' & _ & _ & Hidx & Heof)].
+      2:{ destruct B2 as [_ B2]. rewrite (B2 Hidx) in Heof. discriminate. }
+      destruct B2 as [B2 _]. specialize (B2 Heof). rewrite B2, app_nil_r in B1.
+      destruct (B11 eq_refl) as [_ Hlp]. rewrite <- B1, Eck in Hlp. destruct cs; [|cbn in Hlp; lia].
+      rewrite <- B1, Eck, Hdc, app_nil_r in B3. cbn [ver] in B3.
+      destruct (chunk_ok H hd b true c0); [|discriminate].
+      assert (Hdp : dec1' true (r_dict st1) c0 = Some d0) by (rewrite <- (Hfirst c0 [] Eck); reflexivity).
+      rewrite Hdp in B3. injection B3 as B3. rewrite app_nil_r in B3. subst d.
+      rewrite (d0_len c0 [] Eck) in Hlt. lia.
+Qed.
+
+Lemma read_prog_z fuel st n uout :
+  mu st < N.of_nat fuel -> 0 < n -> CIz uout st -> Extra st ->
+  match zck_read H zdecomp hd fuel st n with
+  | (ROk o, st') => CIz (uout ++ o) st' /\ (len o < n -> finished hd st') /\ mu st' <= mu st /\ Extra st' /\ len o <= n
+  | (RErr _, _) => False
+  | (RFuel, _) => False
+  end.
+Proof.
+  intros Hmu Hpos (He & Hs & HC) Hex. unfold zck_read, comp_read. rewrite He, Hs. change (0 <? 0) with false. cbn [negb]. cbv iota.
+  destruct (N.eqb_spec n 0) as [E|_]; [lia|]. cbn [andb].
+  destruct ((0 <? first_ulen hd) && match r_dict st with None => true | Some _ => false end) eqn:Hcond.
+  - apply andb_true_iff in Hcond. destruct Hcond as [Hfu Hdn]. apply N.ltb_lt in Hfu.
+    destruct (r_dict st) eqn:Ed; [discriminate|].
+    destruct HC as [[HN ->]|[_ [Hc|Hc]]]; [|lia|congruence].
+    pose proof (import_inv H zdecomp hd f Hstarts Hsizes Hz Hnonempty fuel st He Hs HN Hfu) as Hi.
+    pose proof (import_prog_z fuel st Hmu He Hs HN Hfu Hex) as Hp.
+    destruct (import_dict H zdecomp hd fuel st) as [[|] st1]; [|contradiction].
+    destruct Hi as (d & Hd & HR & He1 & Hs1). destruct Hp as [Hm1 Hex1].
+    assert (HJ : Jz' false (d ++ []) st1) by (rewrite app_nil_r; split; [exact He1|split; [exact Hs1|now right]]).
+    pose proof (loop_prog_z false n d fuel st1 [] ltac:(lia) Hpos ltac:(cbn; lia) ltac:(intros; discriminate)
+                  ltac:(intros _; right; congruence) HJ Hex1) as Hl.
+    cbn [negb] in Hl.
+    destruct (comp_loop H zdecomp hd fuel true n st1 [] false) as [[o| |] st2]; try contradiction.
+    destruct Hl as ((He2 & Hs2 & HJ2) & Hd2 & Hf & Hm2 & Hex2 & Hle).
+    split; [|split; [exact Hf|split; [lia|split; [exact Hex2|exact Hle]]]].
+    split; [exact He2|]. split; [exact Hs2|]. right.
+    destruct HJ2 as [HN2|HR2].
+    { destruct HN2 as (_ & _ & _ & _ & _ & _ & _ & _ & Hx). congruence. }
+    unfold dpart. rewrite Hd2, Hd. cbn [app]. split; [exact HR2|right; congruence].
+  - assert (Hu : false = false -> first_ulen hd = 0 \/ r_dict st <> None).
+    { intros _. apply andb_false_iff in Hcond. destruct Hcond as [Hc|Hc].
+      - left. apply N.ltb_ge in Hc. lia.
+      - right. destruct (r_dict st); [discriminate|discriminate]. }
+    assert (HJ : Jz' false ((dpart st ++ uout) ++ []) st).
+    { rewrite app_nil_r. split; [exact He|]. split; [exact Hs|]. destruct HC as [[HN ->]|[HR _]].
+      - left. destruct HN as (A1 & A2 & A3 & A4 & A5 & A6 & A7 & A8 & A9). unfold dpart. rewrite A9.
+        repeat split; assumption.
+      - now right. }
+    pose proof (loop_prog_z false n (dpart st ++ uout) fuel st [] Hmu Hpos ltac:(cbn; lia) ltac:(intros; discriminate) Hu HJ Hex) as Hl.
+    cbn [negb] in Hl.
+    destruct (comp_loop H zdecomp hd fuel true n st [] false) as [[o| |] st2]; try contradiction.
+    destruct Hl as ((He2 & Hs2 & HJ2) & Hd2 & Hf & Hm2 & Hex2 & Hle).
+    split; [|split; [exact Hf|split; [exact Hm2|split; [exact Hex2|exact Hle]]]].
+    split; [exact He2|]. split; [exact Hs2|].
+    destruct HJ2 as [HN2|HR2].
+    + left. destruct HN2 as (A1 & A2 & A3 & A4 & A5 & A6 & A7 & A8 & A9).
+      apply app_eq_nil in A6. destruct A6 as [A6 ->]. apply app_eq_nil in A6. destruct A6 as [_ ->].
+      split; [|reflexivity]. repeat split; assumption.
+    + right. unfold dpart in *. rewrite Hd2. rewrite <- app_assoc in HR2. split; [exact HR2|]. now apply Hu.
+Qed.
+
+(** the dictionary in use is the specification's once the first entry is closed *)
+Lemma CIz_bound uout st : CIz uout st -> len uout <= len D.
+Proof.
+  intros (_ & _ & [[_ ->]|[(pre & B1 & B2 & B3 & B4 & B5 & B6 & B7 & B8 & B9 & B10 & B11 & B12) _]]); [cbn; lia|].
+  destruct pre as [|p0 pre0].
+  { cbn [ver] in B3. injection B3 as B3. symmetry in B3. apply app_eq_nil in B3. destruct B3 as [B3 _].
+    apply app_eq_nil in B3. destruct B3 as [_ ->]. cbn. lia. }
+  assert (Hp0 : exists cs0, cks = p0 :: cs0) by (rewrite B1; cbn; eauto). destruct Hp0 as (cs0 & Ep0).
+  pose proof (d0_len p0 cs0 Ep0) as Hl0. assert (Hfu : first_ulen hd = c_ulen p0) by (unfold first_ulen; now rewrite Ep0).
+  specialize (B12 eq_refl ltac:(discriminate)).
+  (* first component of both decodings is d0 *)
+  pose proof Hspec as Hsp. rewrite B1 in Hsp.
+  assert (Hdv : r_dict st = dictv d0 /\ len (dpart st) = len d0).
+  { cbn [ver] in B3. destruct (chunk_ok H hd b true p0); [|discriminate].
+    assert (Hdp : dec1' true (r_dict st) p0 = Some d0) by (rewrite <- (Hfirst p0 cs0 Ep0); reflexivity).
+    rewrite Hdp in B3. destruct (ver' false (r_dict st) pre0) as [r0|]; [|discriminate]. injection B3 as Hv.
+    unfold dictv, dpart. destruct (N.eqb_spec (first_ulen hd) 0) as [E0|E0].
+    - rewrite B12. split; [reflexivity|]. cbn. lia.
+    - destruct B12 as (d1 & r1 & E1 & E2 & E3). rewrite E3.
+      assert (Ht : takeN (first_ulen hd) (d1 ++ r1) = takeN (first_ulen hd) (d0 ++ r0)) by (now rewrite <- E1, Hv).
+      rewrite !takeN_app_exact in Ht by congruence. subst d1. split; reflexivity. }
+  destruct Hdv as [Hdv Hlp]. rewrite Hdv in B3.
+  assert (Hpre : forall first dv pre rest S, ver' first dv (pre ++ rest) = Some S ->
+                   exists S1 S2, ver' first dv pre = Some S1 /\ S = S1 ++ S2).
+  { clear. intros first dv pre. revert first. induction pre as [|p pre IH]; intros first rest S E; cbn [app ver] in *.
+    - exists [], S. split; reflexivity.
+    - destruct (chunk_ok H hd b first p); [|discriminate]. destruct (dec1' first dv p) as [dp|]; [|discriminate].
+      destruct (ver' false dv (pre ++ rest)) as [r|] eqn:Er; [|discriminate]. injection E as <-.
+      destruct (IH false rest r Er) as (S1 & S2 & E1 & ->). rewrite E1. exists (dp ++ S1), S2. split; [reflexivity|now rewrite app_assoc]. }
+  destruct (Hpre true (dictv d0) (p0 :: pre0) (r_idx st) _ Hsp) as (S1 & S2 & E1 & E2).
+  rewrite E1 in B3. injection B3 as B3. apply (f_equal len) in E2. rewrite B3, !len_app in E2. lia.
+Qed.
+
+Hypothesis Hdok : data_ok H hd b = true.
+Hypothesis Hdec : spec_decode zdecomp hd f = Some D.
+
+Lemma close_true_z out st : CIz out st -> finished hd st -> fst (zck_close H hd st) = true.
+Proof.
+  intros (He & Hs & HC) Hfin. unfold zck_close. rewrite He. change (0 <? 0) with false. cbv iota.
+  destruct (uflag hd) eqn:Huf; [reflexivity|].
+  pose proof Hdok as Hd. unfold data_ok in Hd. rewrite Huf in Hd. apply andb_true_iff in Hd. destruct Hd as [_ Hd]. cbn [orb] in Hd.
+  destruct HC as [[HN _]|[HR _]].
+  - destruct HN as (A1 & A2 & A3 & A4 & A5 & A6 & A7 & A8 & A9). rewrite (A8 Huf). cbn [fst].
+    destruct Hfin as [[Hx _]|(c0 & Eck & Hsk & _)]; [congruence|].
+    rewrite Eck in Hd. unfold skip0 in Hsk. apply andb_true_iff in Hsk. destruct Hsk as [Hc0 _]. apply N.eqb_eq in Hc0.
+    cbn [data_total fold_right] in Hd. rewrite Hc0 in Hd. exact Hd.
+  - destruct HR as (pre & B1 & B2 & B3 & B4 & B5 & B6 & B7 & B8 & B9 & B10 & B11 & B12).
+    destruct Hfin as [[Heof Hdc]|(c0 & _ & _ & Hidx & Heof)].
+    2:{ destruct B2 as [_ B2]. rewrite (B2 Hidx) in Heof. discriminate. }
+    destruct B2 as [B2 _]. specialize (B2 Heof). rewrite B2, app_nil_r in B1. subst pre.
+    unfold cur_clen in B4. rewrite B2 in B4. assert (Hl0 : r_loc st = 0) by lia. rewrite Hl0, N.add_0_r in *.
+    rewrite (B9 Huf). cbn [fst]. exact Hd.
+Qed.
+
+Lemma read_all_prog_z fuel : forall sizes st acc,
+  Forall (fun n => 0 < n) sizes -> CIz acc st -> Extra st -> mu st < N.of_nat fuel ->
+  match read_all H zdecomp hd fuel st sizes acc with
+  | (out, e, st') =>
+      e <> Some false /\ (e = Some true -> CIz out st' /\ finished hd st') /\
+      (len D + 1 <= len acc + N.of_nat (length sizes) -> e = Some true)
+  end.
+Proof.
+  induction sizes as [|n sizes IH]; intros st acc Hpos HC Hex Hmu; cbn [read_all].
+  - split; [discriminate|]. split; [discriminate|]. intros Hl. pose proof (CIz_bound acc st HC). cbn in Hl. lia.
+  - inversion Hpos as [|? ? Hn0 Hpos']; subst.
+    pose proof (read_prog_z fuel st n acc Hmu Hn0 HC Hex) as Hr.
+    destruct (zck_read H zdecomp hd fuel st n) as [[o| |] st1]; try contradiction.
+    destruct Hr as (HC1 & Hf & Hm1 & Hex1 & _). destruct o as [|x o].
+    + rewrite app_nil_r in HC1. split; [discriminate|]. split; [|reflexivity]. intros _. split; [exact HC1|]. apply Hf. cbn. exact Hn0.
+    + specialize (IH st1 (acc ++ x :: o) Hpos' HC1 Hex1 ltac:(lia)).
+      destruct (read_all H zdecomp hd fuel st1 sizes (acc ++ x :: o)) as [[out e] st'].
+      destruct IH as (I1 & I2 & I3). split; [exact I1|]. split; [exact I2|]. intros Hl. apply I3.
+      rewrite len_app, len_cons. cbn [length] in Hl. lia.
+Qed.
+
+Theorem read_complete_z fuel sizes :
+  (fuel_bound <= fuel)%nat -> Forall (fun n => 0 < n) sizes ->
+  match read_all H zdecomp hd fuel (open_state hd f) sizes [] with
+  | (out, e, st') =>
+      e <> Some false /\
+      (e = Some true -> out = D /\ fst (zck_close H hd st') = true) /\
+      (len D < N.of_nat (length sizes) -> e = Some true)
+  end.
+Proof.
+  intros Hfuel Hpos.
+  pose proof (read_all_prog_z fuel sizes (open_state hd f) [] Hpos
+                (open_CI H zdecomp hd f) open_Extra ltac:(pose proof open_mu; lia)) as Hr.
+  destruct (read_all H zdecomp hd fuel (open_state hd f) sizes []) as [[out e] st'].
+  destruct Hr as (R1 & R2 & R3). split; [exact R1|]. split.
+  - intros He. destruct (R2 He) as [HC Hf]. pose proof (close_true_z out st' HC Hf) as Hcl. split; [|exact Hcl].
+    destruct (zck_close H hd st') as [cl st2] eqn:Ecl. cbn [fst] in Hcl. subst cl.
+    destruct (final_spec H zdecomp hd f Hstarts Hsizes Hz Hnonempty out st' st2 HC Hf Ecl) as [_ Hd]. congruence.
+  - intros Hl. apply R3. cbn. lia.
+Qed.
+End ProgressZ.
+
+(** ** compression type 0 *)
+Section ProgressN.
+Hypothesis Hn : is_zstd hd = false.
+Variable d0 D : bytes.
+Hypothesis Hspec : ver' true (dictv d0) cks = Some (d0 ++ D).
+Hypothesis Hfirst : forall c0 cs, cks = c0 :: cs -> dec1' true None c0 = Some d0.
+
+Notation RUNn' := (RUNn H zdecomp hd f).
+Notation Jn' := (Jn H zdecomp hd f).
+Notation CIn' := (CIn H zdecomp hd f).
+
+Lemma ver_nodict first dv dv' l : ver' first dv l = ver' first dv' l.
+Proof.
+  revert first. induction l as [|c l IH]; intros first; [reflexivity|]. cbn [ver].
+  rewrite (IH false). unfold dec1, decode_chunk. rewrite Hn. reflexivity.
+Qed.
+
+Lemma chunk_prog_n imp n del st out1 c next :
+  0 < n -> r_err st = 0 -> r_started st = true -> RUNn' imp false del st ->
+  r_dc st = [] -> r_data st = [] -> r_idx st = c :: next -> Extra st ->
+  (imp = true -> len del < n /\ n = first_ulen hd) ->
+  match step_chunk H zdecomp hd (negb imp) n st out1 false with
+  | SCont st' out' frd' => frd' = false /\ mu st' < mu st /\ Extra st'
+  | SDone _ _ => False
+  end.
+Proof.
+  intros Hpos He Hst (pre & Hck & Heof & Hver & Hpos' & Hloc & Hb & Hrest & Hch & Hfh & Hid & Himp) Hdc Hdata Hidx Hex Hil.
+  dst st. subst idx dc data err started. unfold cur_clen in *. rsimpl.
+  destruct (chunk_sizes H zdecomp hd f Hstarts Hsizes pre c next Hck) as [Hlt Hstart].
+  set (off := data_total pre) in *.
+  rewrite app_nil_r in Hpos'.
+  assert (Hld : len del = off + loc) by (rewrite Hpos', len_takeN; lia).
+  assert (Heo : eof = false).
+  { destruct eof; [|reflexivity]. destruct Heof as [Hx _]. specialize (Hx eq_refl). discriminate. }
+  subst eof.
+  pose proof Hspec as Hsp. rewrite Hck in Hsp. destruct (ver_mid true (dictv d0) pre c next _ Hsp) as [Hcok (S1 & d & S2 & Hs1 & Hdec & HS)].
+  assert (Hsto : stored b c = sub b off (c_clen c)) by (unfold stored; now rewrite Hstart).
+  assert (Hbound : off + c_clen c <= len b).
+  { unfold chunk_ok in Hcok. apply andb_true_iff in Hcok. destruct Hcok as [Hb1 _]. apply N.leb_le in Hb1. lia. }
+  assert (Hnoskip : hflag true pre && skip0 c = false).
+  { destruct pre as [|p0 pre0]; [|reflexivity]. cbn [hflag andb]. apply (Hex c next); [exact Hck|reflexivity]. }
+  unfold step_chunk. rsimpl.
+  destruct (N.eqb_spec loc (c_clen c)) as [Hend|Hmid].
+  - subst loc. unfold end_dchunk, validate_current. rsimpl. rewrite Hch.
+    assert (Hok : (if c_clen c =? 0 then all_zero (c_digest c)
+                   else bytes_eqb (H (h_chash hd) (sub b off (c_clen c))) (c_digest c)) = true).
+    { unfold chunk_ok in Hcok. apply andb_true_iff in Hcok. destruct Hcok as [_ Hh]. rewrite Hsto in Hh.
+      destruct (N.eqb_spec (c_clen c) 0) as [Hc0|]; [|exact Hh].
+      apply orb_true_iff in Hh. destruct Hh as [Hh|Hh]; [|exact Hh]. exfalso.
+      apply andb_true_iff in Hh. destruct Hh as [Hfl Hu0]. rewrite Hfl in Hnoskip. cbn [andb] in Hnoskip.
+      unfold skip0 in Hnoskip. rewrite Hu0, Hc0 in Hnoskip. discriminate. }
+    rewrite Hok. unfold backend_end_dchunk. rewrite nozstd by exact Hn. unfold set_chash. rsimpl.
+    unfold dec1 in Hdec. rewrite Hnoskip in Hdec. unfold decode_chunk in Hdec. rewrite Hn in Hdec.
+    destruct (N.eqb_spec (c_ulen c) (c_clen c)) as [Hcu|]; [|discriminate].
+    rewrite <- Hcu, N.eqb_refl.
+    assert (Hnimp : imp = false).
+    { destruct imp; [exfalso|reflexivity]. destruct (Hil eq_refl) as [Hl1 Hl2].
+      destruct (Himp eq_refl) as (_ & Hp & Hcase). subst pre. cbn in off. subst off.
+      assert (Hfu : first_ulen hd = c_ulen c) by (unfold first_ulen; now rewrite Hck).
+      destruct Hcase as [[Hc0 _]|[Hc1|[Hc2 _]]]; lia. }
+    subst imp. cbn [negb]. unfold set_data, set_idx, set_chash. rsimpl.
+    assert (Hmu : forall eof', (eof' = true <-> next = []) ->
+       mu (mkR rest [] 0 next eof' [] dcloc (Some []) fhash dict true 0) <
+       mu (mkR rest [] (c_ulen c) (c :: next) false [] dcloc (Some (sub b off (c_ulen c))) fhash dict true 0)).
+    { intros eof' He'. unfold mu, idxlen. rsimpl. cbn [length].
+      destruct eof'; [lia|].
+      destruct next as [|c1 nx]; [destruct He' as [_ Hx]; specialize (Hx eq_refl); discriminate|]. cbn [length]. lia. }
+    assert (Hext : forall eof', Extra (mkR rest [] 0 next eof' [] dcloc (Some []) fhash dict true 0)).
+    { intros eof' c0 cs E1 E2. rsimpl. exfalso. rewrite Hck in E1. rewrite <- E2 in E1. exact (suffix_shorter pre c next E1). }
+    destruct next as [|c1 next1]; rsimpl; (split; [reflexivity|]); split.
+    + apply Hmu. split; reflexivity.
+    + apply Hext.
+    + apply Hmu. split; discriminate.
+    + apply Hext.
+  - cbv zeta. rsimpl. rewrite Hch.
+    set (rs := if c_clen c <? loc + n then u64 (c_clen c + two64 - loc) else n).
+    assert (Hrs : 0 < rs /\ rs <= c_clen c - loc).
+    { unfold rs. destruct (N.ltb_spec (c_clen c) (loc + n)).
+      - assert (Hl : c_clen c < two64) by lia. unfold u64, two64 in *. lia.
+      - lia. }
+    fold rs.
+    remember (takeN rs rest) as src eqn:Esrc.
+    assert (Hls : len src = rs).
+    { subst src rest. rewrite len_takeN, len_dropN. fold off. lia. }
+    assert (Hne : src <> []) by (intros ->; cbn in Hls; lia).
+    rewrite Hls, N.ltb_irrefl.
+    assert (Hfin : forall ch fh,
+              mu (mkR (dropN rs rest) ([] ++ src) (loc + rs) (c :: next) false [] dcloc ch fh dict true 0) <
+              mu (mkR rest [] loc (c :: next) false [] dcloc (Some (sub b off loc)) fhash dict true 0) /\
+              Extra (mkR (dropN rs rest) ([] ++ src) (loc + rs) (c :: next) false [] dcloc ch fh dict true 0)).
+    { intros ch fh. split.
+      - unfold mu, idxlen. rsimpl. rewrite len_dropN.
+        assert (Hlr : rs <= len rest) by (rewrite <- Hls, Esrc, len_takeN; lia).
+        destruct src; cbn [app]; try congruence; lia.
+      - intros c0 cs E1 E2. rsimpl. apply (Hex c0 cs E1 E2). }
+    destruct (uflag hd) eqn:Huf.
+    + rsimpl. rewrite (hash_update_some _ src Hne). rsimpl. split; [reflexivity|]. apply Hfin.
+    + rewrite (Hfh eq_refl). rsimpl. repeat (rewrite (hash_update_some _ src Hne); rsimpl). split; [reflexivity|]. apply Hfin.
+Qed.
+
+Lemma step_prog_n imp n del0 st out :
+  0 < n -> len out < n ->
+  (imp = true -> n = first_ulen hd /\ del0 = []) ->
+  Jn' imp false (del0 ++ out) st -> Extra st ->
+  match comp_step H zdecomp hd (negb imp) n st out false with
+  | SCont st' out' frd' => frd' = false /\ mu st' < mu st /\ Extra st'
+  | SDone (ROk o) st' => mu st' <= mu st /\ Extra st' /\ len o <= n
+  | SDone (RErr _) _ => False
+  | SDone RFuel _ => False
+  end.
+Proof.
+  intros Hpos Hlo Hi HJ Hex.
+  unfold comp_step. cbv zeta.
+  set (dl := N.min (n - len out) (len (r_dc st))).
+  pose proof (Jn_take H zdecomp hd f imp false (del0 ++ out) st dl (r_dcloc st + dl) HJ) as HJ1.
+  rewrite <- app_assoc in HJ1.
+  pose proof (mu_take st dl (r_dcloc st + dl)) as [Hmu1 Hmu2].
+  pose proof (Extra_set_dc st (dropN dl (r_dc st)) (r_dcloc st + dl) Hex) as Hex1.
+  set (out1 := out ++ takeN dl (r_dc st)) in *.
+  set (st1 := set_dc st (dropN dl (r_dc st)) (r_dcloc st + dl)) in *.
+  assert (Hlo1 : len out1 = len out + dl).
+  { unfold out1. rewrite len_app, len_takeN. fold dl. unfold dl. lia. }
+  destruct (N.eqb_spec (len out1) n) as [Hfull|Hnf].
+  { split; [assumption|]. split; [assumption|lia]. }
+  destruct (N.ltb_spec 0 dl) as [Hdl|Hdl].
+  { split; [reflexivity|]. split; [|exact Hex1]. apply Hmu2; unfold dl in *; lia. }
+  assert (Hdc : r_dc st = []).
+  { apply len_0_nil. unfold dl in Hdl. lia. }
+  assert (Hdc1 : r_dc st1 = []) by (unfold st1; rsimpl; rewrite Hdc; apply dropN_nil).
+  destruct (r_eof st1) eqn:Heof1.
+  { split; [assumption|]. split; [assumption|unfold dl in *; lia]. }
+  assert (Hil : imp = true -> len (del0 ++ out1) < n /\ n = first_ulen hd).
+  { intros E. destruct (Hi E) as [-> ->]. cbn [app]. split; [lia|reflexivity]. }
+  clearbody st1 out1. clear HJ Hdc dl Hdl Hmu2 Hlo1.
+  destruct (r_data st1) as [|x dat] eqn:Edata.
+  2:{ destruct HJ1 as (He & Hs & _).
+    dst st1. subst dc data eof.
+    change (0 <? len (x :: dat)) with (0 <? N.of_nat (S (length dat))).
+    destruct (N.ltb_spec 0 (N.of_nat (S (length dat)))) as [_|Hx]; [|lia].
+    unfold decompress. rewrite nozstd by exact Hn. unfold set_data, add_to_dc, set_dc. rsimpl.
+    assert (Hchg : negb (0 + len ([] ++ x :: dat) =? dcloc + len []) || negb (0 =? dcloc) = true).
+    { destruct (N.eqb_spec 0 dcloc) as [<-|Hne]; [|apply orb_true_r]. cbn [negb orb]. rewrite orb_false_r.
+      cbn [app]. rewrite len_cons. change (len []) with 0.
+      destruct (N.eqb_spec (0 + (1 + len dat)) (0 + 0)); [lia|reflexivity]. }
+    rewrite Hchg. split; [reflexivity|]. split.
+    - eapply N.lt_le_trans; [|exact Hmu1]. unfold mu, idxlen. rsimpl. cbn [app]. lia.
+    - intros c0 cs E1 E2. exact (Hex1 c0 cs E1 E2). }
+  change (0 <? len []) with false. cbv iota. rewrite !N.eqb_refl. cbn [negb orb].
+  destruct HJ1 as (He & Hs & [HN|HR]).
+  - destruct HN as (A1 & A2 & A3 & A4 & A5 & A6 & A7 & A8 & A9).
+    dst st1. subst idx eof loc data dc rest dict err started.
+    unfold step_init. rsimpl.
+    assert (Hexc : exists c0 cs, h_chunks hd = c0 :: cs).
+    { pose proof Hnonempty as Hq. destruct (h_chunks hd) as [|c0 cs]; [congruence|eauto]. }
+    destruct Hexc as (c0 & cs & Eck). rewrite Eck.
+    apply app_eq_nil in A6. destruct A6 as [-> ->].
+    change (0 <? 0) with false. cbv iota.
+    destruct (chunk_sizes H zdecomp hd f Hstarts Hsizes [] c0 cs Eck) as [_ Hst0]. cbn in Hst0.
+    fold (skip0 c0).
+    remember (if skip0 c0 then cs else c0 :: cs) as idx0 eqn:Eidx.
+    set (pre := if skip0 c0 then [c0] else []).
+    unfold set_chash, set_idx. rsimpl.
+    set (st3 := mkR b [] 0 idx0 false [] dcloc (Some []) fhash None true 0).
+    assert (Hmu3 : mu st3 <= mu st).
+    { etransitivity; [|exact Hmu1]. unfold mu, idxlen, st3. rsimpl. rewrite Eck.
+      destruct idx0 as [|ci nx]; [lia|]. destruct (skip0 c0); [subst cs|injection Eidx as <- <-]; cbn [length]; lia. }
+    assert (Hex3 : Extra st3).
+    { intros c0' cs' E1 E2. unfold st3 in E2. rsimpl. rewrite Eck in E1. injection E1 as <- <-.
+      destruct (skip0 c0); [|reflexivity]. exfalso. apply (f_equal (@length chunk)) in E2. rewrite Eidx in E2. cbn in E2. lia. }
+    destruct idx0 as [|c next].
+    { unfold step_chunk. subst st3. rsimpl. split; [assumption|]. split; [assumption|cbn; lia]. }
+    assert (HRn : RUNn' imp false [] st3).
+    { exists pre. subst st3. rsimpl. unfold cur_clen. rsimpl.
+      assert (Ht : data_total pre = 0).
+      { unfold pre. destruct (skip0 c0) eqn:Hsk; [|reflexivity]. unfold skip0 in Hsk. apply andb_true_iff in Hsk.
+        destruct Hsk as [Hc0 _]. apply N.eqb_eq in Hc0. cbn. lia. }
+      rewrite Ht. cbn [N.add]. rewrite takeN_0.
+      split. { rewrite Eidx, Eck. unfold pre. destruct (skip0 c0); reflexivity. }
+      split. { split; discriminate. }
+      split.
+      { unfold pre. destruct (skip0 c0) eqn:Hsk; [|reflexivity]. cbn [ver]. unfold dec1. rewrite Hsk. cbn [andb].
+        unfold chunk_ok. rewrite Hst0. unfold skip0 in Hsk. apply andb_true_iff in Hsk. destruct Hsk as [Hc0 Hu0].
+        rewrite Hc0, Hu0. apply N.eqb_eq in Hc0. rewrite Hc0. cbn [N.add andb orb].
+        destruct (N.leb_spec 0 (len b)); [reflexivity|lia]. }
+      split; [reflexivity|]. split; [lia|]. split; [lia|]. split; [reflexivity|]. split; [reflexivity|].
+      split; [exact A8|]. split; [intros; reflexivity|].
+      intros E. split; [reflexivity|]. split.
+      - unfold pre. destruct (skip0 c0) eqn:Hsk; [|reflexivity]. exfalso.
+        unfold skip0 in Hsk. apply andb_true_iff in Hsk. destruct Hsk as [_ Hu0]. apply N.eqb_eq in Hu0.
+        destruct (Hi E) as [Hn1 _]. unfold first_ulen in Hn1. rewrite Eck in Hn1. lia.
+      - left. split; reflexivity. }
+    pose proof (chunk_prog_n imp n [] st3 [] c next Hpos eq_refl eq_refl HRn eq_refl eq_refl eq_refl Hex3) as Hc.
+    cbn [app] in Hil. specialize (Hc Hil).
+    destruct (step_chunk H zdecomp hd (negb imp) n st3 [] false) as [st' out' frd'|r st']; [|contradiction].
+    destruct Hc as (-> & Hc1 & Hc2). split; [reflexivity|]. split; [lia|exact Hc2].
+  - assert (Hcopy := HR).
+    destruct HR as (pre & B1 & B2 & _).
+    destruct (r_idx st1) as [|c next] eqn:Eidx.
+    { destruct B2 as [_ B2]. rewrite (B2 eq_refl) in Heof1. discriminate. }
+    unfold step_init. rewrite Eidx.
+    pose proof (chunk_prog_n imp n (del0 ++ out1) st1 out1 c next Hpos He Hs Hcopy Hdc1 Edata Eidx Hex1 Hil) as Hc.
+    destruct (step_chunk H zdecomp hd (negb imp) n st1 out1 false) as [st' out' frd'|r st']; [|contradiction].
+    destruct Hc as (-> & Hc1 & Hc2). split; [reflexivity|]. split; [lia|exact Hc2].
+Qed.
+
+Lemma loop_prog_n imp n del0 : forall fuel st out,
+  mu st < N.of_nat fuel ->
+  0 < n -> len out < n ->
+  (imp = true -> n = first_ulen hd /\ del0 = []) ->
+  Jn' imp false (del0 ++ out) st -> Extra st ->
+  match comp_loop H zdecomp hd fuel (negb imp) n st out false with
+  | (ROk o, st') => Jn' imp false (del0 ++ o) st' /\ r_dict st' = r_dict st /\ (len o < n -> finished hd st') /\
+                    mu st' <= mu st /\ Extra st' /\ len o <= n
+  | (RErr _, _) => False
+  | (RFuel, _) => False
+  end.
+Proof.
+  induction fuel as [|fuel IH]; intros st out Hmu Hpos Hlo Hi HJ Hex; [lia|]. cbn [comp_loop].
+  pose proof (step_inv_n H zdecomp hd f Hstarts Hsizes Hn Hnonempty imp n del0 st out false Hpos Hlo Hi HJ) as Hs.
+  pose proof (step_prog_n imp n del0 st out Hpos Hlo Hi HJ Hex) as Hp.
+  destruct (comp_step H zdecomp hd (negb imp) n st out false) as [st' out' frd'|[o| |] st']; try contradiction.
+  - destruct Hs as (HJ' & Hlo' & Hd'). destruct Hp as (-> & Hm' & Hex').
+    pose proof (IH st' out' ltac:(lia) Hpos Hlo' Hi HJ' Hex') as Hr.
+    destruct (comp_loop H zdecomp hd fuel (negb imp) n st' out' false) as [[o| |] st'']; try contradiction.
+    destruct Hr as (R1 & R2 & R3 & R4 & R5 & R6). split; [exact R1|]. split; [congruence|]. split; [exact R3|]. split; [lia|]. split; [exact R5|exact R6].
+  - destruct Hs as (R1 & R2 & R3). destruct Hp as (P1 & P2 & P3).
+    split; [exact R1|]. split; [exact R2|]. split; [exact R3|]. split; [exact P1|]. split; [exact P2|exact P3].
+Qed.
+
+Lemma import_prog_n fuel st :
+  mu st < N.of_nat fuel ->
+  r_err st = 0 -> r_started st = true -> NS hd f [] st -> 0 < first_ulen hd -> Extra st ->
+  match import_dict H zdecomp hd fuel st with
+  | (true, st') => mu st' <= mu st /\ Extra st'
+  | (false, _) => False
+  end.
+Proof.
+  intros Hmu He Hs HN Hfu Hex. unfold import_dict. rewrite He. change (0 <? 0) with false. cbv iota.
+  destruct (N.eqb_spec (first_ulen hd) 0) as [E|_]; [lia|].
+  unfold comp_read_nd. rewrite He, Hs. change (0 <? 0) with false. cbn [negb]. cbv iota.
+  destruct (N.eqb_spec (first_ulen hd) 0) as [E|_]; [lia|].
+  assert (HJ : Jn' true false ([] ++ []) st) by (split; [exact He|split; [exact Hs|now left]]).
+  pose proof (loop_prog_n true (first_ulen hd) [] fuel st [] Hmu Hfu ltac:(cbn; lia) ltac:(intros _; split; reflexivity) HJ Hex) as Hl.
+  cbn [negb] in Hl.
+  destruct (comp_loop H zdecomp hd fuel false (first_ulen hd) st [] false) as [[d| |] st1]; try contradiction.
+  destruct Hl as (HJ1 & Hd1 & Hf & Hm1 & Hex1 & Hle). cbn [app] in HJ1.
+  destruct (N.eqb_spec (len d) (first_ulen hd)) as [Hld|Hld].
+  - destruct HJ1 as (He1 & Hs1 & _). unfold comp_reset, comp_init. rsimpl. rewrite He1. change (0 <? 0) with false. cbv iota. rsimpl.
+    split.
+    + etransitivity; [|exact Hm1]. unfold mu, idxlen. dst st1. unfold set_started, set_dict, set_dc. rsimpl. destruct dc; lia.
+    + intros a l E1 E2. exact (Hex1 a l E1 E2).
+  - exfalso. assert (Hlt : len d < first_ulen hd) by lia. specialize (Hf Hlt).
+    assert (Hex0 : exists c0 cs, h_chunks hd = c0 :: cs).
+    { pose proof Hnonempty as Hq. destruct (h_chunks hd) as [|c0 cs]; [congruence|eauto]. }
+    destruct Hex0 as (c0 & cs & Eck).
+    destruct HJ1 as (_ & _ & [HN1|HR1]).
+    + destruct Hf as [[Hx _]|(c0' & Eck' & Hsk & _)].
+      * destruct HN1 as (_ & Hx2 & _). congruence.
+      * rewrite Eck in Eck'. injection Eck' as <- _. unfold skip0 in Hsk. apply andb_true_iff in Hsk. destruct Hsk as [_ Hu0].
+        apply N.eqb_eq in Hu0. unfold first_ulen in Hfu. rewrite Eck in Hfu. lia.
+    + destruct HR1 as (pre & B1 & B2 & B3 & B4 & B5 & B6 & B7 & B8 & B9 & B10 & B11).
+      destruct Hf as [[Heof Hdc]|(c0' & _ & _ & Hidx & Heof)].
+      2:{ destruct B2 as [_ B2]. rewrite (B2 Hidx) in Heof. discriminate. }
+      destruct B2 as [B2 _]. specialize (B2 Heof). destruct (B11 eq_refl) as (_ & -> & _).
+      rewrite B2 in B1. cbn in B1. congruence.
+Qed.
+
+Lemma read_prog_n fuel st n uout :
+  mu st < N.of_nat fuel -> 0 < n -> CIn' uout st -> Extra st ->
+  match zck_read H zdecomp hd fuel st n with
+  | (ROk o, st') => CIn' (uout ++ o) st' /\ (len o < n -> finished hd st') /\ mu st' <= mu st /\ Extra st' /\ len o <= n
+  | (RErr _, _) => False
+  | (RFuel, _) => False
+  end.
+Proof.
+  intros Hmu Hpos (He & Hs & HC) Hex. unfold zck_read, comp_read. rewrite He, Hs. change (0 <? 0) with false. cbn [negb]. cbv iota.
+  destruct (N.eqb_spec n 0) as [E|_]; [lia|]. cbn [andb].
+  destruct ((0 <? first_ulen hd) && match r_dict st with None => true | Some _ => false end) eqn:Hcond.
+  - apply andb_true_iff in Hcond. destruct Hcond as [Hfu Hdn]. apply N.ltb_lt in Hfu.
+    destruct (r_dict st) eqn:Ed; [discriminate|].
+    destruct HC as [[HN ->]|[_ Hc]].
+    2:{ unfold dpart in Hc. rewrite Ed in Hc. cbn in Hc. lia. }
+    pose proof (import_inv_n H zdecomp hd f Hstarts Hsizes Hn Hnonempty fuel st He Hs HN Hfu) as Hi.
+    pose proof (import_prog_n fuel st Hmu He Hs HN Hfu Hex) as Hp.
+    destruct (import_dict H zdecomp hd fuel st) as [[|] st1]; [|contradiction].
+    destruct Hi as (d & Hd & Hld & HR & He1 & Hs1). destruct Hp as [Hm1 Hex1].
+    assert (HJ : Jn' false false (d ++ []) st1) by (rewrite app_nil_r; split; [exact He1|split; [exact Hs1|now right]]).
+    pose proof (loop_prog_n false n d fuel st1 [] ltac:(lia) Hpos ltac:(cbn; lia) ltac:(intros; discriminate) HJ Hex1) as Hl.
+    cbn [negb] in Hl.
+    destruct (comp_loop H zdecomp hd fuel true n st1 [] false) as [[o| |] st2]; try contradiction.
+    destruct Hl as ((He2 & Hs2 & HJ2) & Hd2 & Hf & Hm2 & Hex2 & Hle).
+    split; [|split; [exact Hf|split; [lia|split; [exact Hex2|exact Hle]]]].
+    split; [exact He2|]. split; [exact Hs2|]. right.
+    destruct HJ2 as [HN2|HR2].
+    { destruct HN2 as (_ & _ & _ & _ & _ & _ & _ & _ & Hx). congruence. }
+    unfold dpart. rewrite Hd2, Hd. cbn [app]. split; [exact HR2|exact Hld].
+  - assert (HJ : Jn' false false ((dpart st ++ uout) ++ []) st).
+    { rewrite app_nil_r. split; [exact He|]. split; [exact Hs|]. destruct HC as [[HN ->]|[HR _]].
+      - left. destruct HN as (A1 & A2 & A3 & A4 & A5 & A6 & A7 & A8 & A9). unfold dpart. rewrite A9.
+        repeat split; assumption.
+      - now right. }
+    pose proof (loop_prog_n false n (dpart st ++ uout) fuel st [] Hmu Hpos ltac:(cbn; lia) ltac:(intros; discriminate) HJ Hex) as Hl.
+    cbn [negb] in Hl.
+    destruct (comp_loop H zdecomp hd fuel true n st [] false) as [[o| |] st2]; try contradiction.
+    destruct Hl as ((He2 & Hs2 & HJ2) & Hd2 & Hf & Hm2 & Hex2 & Hle).
+    split; [|split; [exact Hf|split; [exact Hm2|split; [exact Hex2|exact Hle]]]].
+    split; [exact He2|]. split; [exact Hs2|].
+    destruct HJ2 as [HN2|HR2].
+    + left. destruct HN2 as (A1 & A2 & A3 & A4 & A5 & A6 & A7 & A8 & A9).
+      apply app_eq_nil in A6. destruct A6 as [A6 ->]. apply app_eq_nil in A6. destruct A6 as [_ ->].
+      split; [|reflexivity]. repeat split; assumption.
+    + right. unfold dpart in *. rewrite Hd2. rewrite <- app_assoc in HR2. split; [exact HR2|].
+      destruct HC as [[HN ->]|[_ Hc]]; [|exact Hc].
+      destruct HN as (_ & _ & _ & _ & _ & _ & _ & _ & A9). rewrite A9 in *. cbn.
+      apply andb_false_iff in Hcond. destruct Hcond as [Hc|Hc]; [apply N.ltb_ge in Hc; lia|discriminate].
+Qed.
+
+Lemma d0_len_n c0 cs : cks = c0 :: cs -> len d0 = c_ulen c0.
+Proof.
+  intros E. pose proof (Hfirst c0 cs E) as Hf. unfold dec1 in Hf. cbn [andb] in Hf. destruct (skip0 c0) eqn:Hsk.
+  - injection Hf as Hf. rewrite <- Hf. unfold skip0 in Hsk. apply andb_true_iff in Hsk. destruct Hsk as [_ Hu]. apply N.eqb_eq in Hu. now rewrite Hu.
+  - unfold decode_chunk in Hf. rewrite Hn in Hf. destruct (N.eqb_spec (c_ulen c0) (c_clen c0)) as [Hcu|]; [|discriminate].
+    injection Hf as Hf. rewrite <- Hf. pose proof Hspec as Hsp. rewrite E in Hsp.
+    destruct (ver_mid true (dictv d0) [] c0 cs _ Hsp) as [Hc _]. unfold chunk_ok in Hc. apply andb_true_iff in Hc.
+    destruct Hc as [Hb _]. apply N.leb_le in Hb. unfold stored. rewrite len_sub by exact Hb. now rewrite Hcu.
+Qed.
+
+Lemma CIn_bound uout st : CIn' uout st -> len uout <= len D.
+Proof.
+  intros (_ & _ & [[_ ->]|[(pre & B1 & B2 & B3 & B4 & B5 & B6 & B7 & B8 & B9 & B10 & B11) Hdp]]); [cbn; lia|].
+  assert (Hex0 : exists c0 cs, h_chunks hd = c0 :: cs).
+  { pose proof Hnonempty as Hq. destruct (h_chunks hd) as [|c0 cs]; [congruence|eauto]. }
+  destruct Hex0 as (c0 & cs & Eck).
+  assert (Hfu : first_ulen hd = c_ulen c0) by (unfold first_ulen; now rewrite Eck).
+  pose proof (d0_len_n c0 cs Eck) as Hl0.
+  assert (Hall : data_total pre + r_loc st <= len d0 + len D).
+  { pose proof Hspec as Hsp. rewrite (ver_nodict true (dictv d0) None) in Hsp. rewrite B1 in Hsp.
+    destruct (r_idx st) as [|c next] eqn:Eidx.
+    - rewrite app_nil_r in Hsp. rewrite B3 in Hsp. injection Hsp as Hsp. unfold cur_clen in B5. rewrite Eidx in B5.
+      apply (f_equal len) in Hsp. rewrite len_takeN, len_app in Hsp. lia.
+    - destruct (ver_mid true None pre c next _ Hsp) as [Hc (S1 & d & S2 & E1 & E2 & E3)].
+      rewrite B3 in E1. injection E1 as <-.
+      destruct (chunk_sizes H zdecomp hd f Hstarts Hsizes pre c next B1) as [_ Hstart].
+      unfold chunk_ok in Hc. apply andb_true_iff in Hc. destruct Hc as [Hb _]. apply N.leb_le in Hb. rewrite Hstart in Hb.
+      unfold cur_clen in B5. rewrite Eidx in B5.
+      assert (Hld : r_loc st <= len d).
+      { unfold dec1 in E2. destruct (hflag true pre && skip0 c) eqn:Hsk.
+        - apply andb_true_iff in Hsk. destruct Hsk as [_ Hsk]. unfold skip0 in Hsk. apply andb_true_iff in Hsk.
+          destruct Hsk as [Hc0 _]. apply N.eqb_eq in Hc0. lia.
+        - unfold decode_chunk in E2. rewrite Hn in E2. destruct (c_ulen c =? c_clen c); [|discriminate]. injection E2 as <-.
+          unfold stored. rewrite Hstart, len_sub by exact Hb. exact B5. }
+      apply (f_equal len) in E3. rewrite !len_app, len_takeN in E3. lia. }
+  apply (f_equal len) in B4. rewrite !len_app, len_takeN in B4. lia.
+Qed.
+
+Hypothesis Hdok : data_ok H hd b = true.
+Hypothesis Hdec : spec_decode zdecomp hd f = Some D.
+
+Lemma close_true_n out st : CIn' out st -> finished hd st -> fst (zck_close H hd st) = true.
+Proof.
+  intros (He & Hs & HC) Hfin. unfold zck_close. rewrite He. change (0 <? 0) with false. cbv iota.
+  destruct (uflag hd) eqn:Huf; [reflexivity|].
+  pose proof Hdok as Hd. unfold data_ok in Hd. rewrite Huf in Hd. apply andb_true_iff in Hd. destruct Hd as [_ Hd]. cbn [orb] in Hd.
+  destruct HC as [[HN _]|[HR _]].
+  - destruct HN as (A1 & A2 & A3 & A4 & A5 & A6 & A7 & A8 & A9). rewrite (A8 Huf). cbn [fst].
+    destruct Hfin as [[Hx _]|(c0 & Eck & Hsk & _)]; [congruence|].
+    rewrite Eck in Hd. unfold skip0 in Hsk. apply andb_true_iff in Hsk. destruct Hsk as [Hc0 _]. apply N.eqb_eq in Hc0.
+    cbn [data_total fold_right] in Hd. rewrite Hc0 in Hd. exact Hd.
+  - destruct HR as (pre & B1 & B2 & B3 & B4 & B5 & B6 & B7 & B8 & B9 & B10 & B11).
+    destruct Hfin as [[Heof Hdc]|(c0 & _ & _ & Hidx & Heof)].
+    2:{ destruct B2 as [_ B2]. rewrite (B2 Hidx) in Heof. discriminate. }
+    destruct B2 as [B2 _]. specialize (B2 Heof). rewrite B2, app_nil_r in B1. subst pre.
+    unfold cur_clen in B5. rewrite B2 in B5. assert (Hl0 : r_loc st = 0) by lia. rewrite Hl0, N.add_0_r in *.
+    rewrite (B9 Huf). cbn [fst]. exact Hd.
+Qed.
+
+Lemma read_all_prog_n fuel : forall sizes st acc,
+  Forall (fun n => 0 < n) sizes -> CIn' acc st -> Extra st -> mu st < N.of_nat fuel ->
+  match read_all H zdecomp hd fuel st sizes acc with
+  | (out, e, st') =>
+      e <> Some false /\ (e = Some true -> CIn' out st' /\ finished hd st') /\
+      (len D + 1 <= len acc + N.of_nat (length sizes) -> e = Some true)
+  end.
+Proof.
+  induction sizes as [|n sizes IH]; intros st acc Hpos HC Hex Hmu; cbn [read_all].
+  - split; [discriminate|]. split; [discriminate|]. intros Hl. pose proof (CIn_bound acc st HC). cbn in Hl. lia.
+  - inversion Hpos as [|? ? Hn0 Hpos']; subst.
+    pose proof (read_prog_n fuel st n acc Hmu Hn0 HC Hex) as Hr.
+    destruct (zck_read H zdecomp hd fuel st n) as [[o| |] st1]; try contradiction.
+    destruct Hr as (HC1 & Hf & Hm1 & Hex1 & _). destruct o as [|x o].
+    + rewrite app_nil_r in HC1. split; [discriminate|]. split; [|reflexivity]. intros _. split; [exact HC1|]. apply Hf. cbn. exact Hn0.
+    + specialize (IH st1 (acc ++ x :: o) Hpos' HC1 Hex1 ltac:(lia)).
+      destruct (read_all H zdecomp hd fuel st1 sizes (acc ++ x :: o)) as [[out e] st'].
+      destruct IH as (I1 & I2 & I3). split; [exact I1|]. split; [exact I2|]. intros Hl. apply I3.
+      rewrite len_app, len_cons. cbn [length] in Hl. lia.
+Qed.
+
+Theorem read_complete_n fuel sizes :
+  (fuel_bound <= fuel)%nat -> Forall (fun n => 0 < n) sizes ->
+  match read_all H zdecomp hd fuel (open_state hd f) sizes [] with
+  | (out, e, st') =>
+      e <> Some false /\
+      (e = Some true -> out = D /\ fst (zck_close H hd st') = true) /\
+      (len D < N.of_nat (length sizes) -> e = Some true)
+  end.
+Proof.
+  intros Hfuel Hpos.
+  pose proof (read_all_prog_n fuel sizes (open_state hd f) [] Hpos
+                (open_CIn H zdecomp hd f) open_Extra ltac:(pose proof open_mu; lia)) as Hr.
+  destruct (read_all H zdecomp hd fuel (open_state hd f) sizes []) as [[out e] st'].
+  destruct Hr as (R1 & R2 & R3). split; [exact R1|]. split.
+  - intros He. destruct (R2 He) as [HC Hf]. pose proof (close_true_n out st' HC Hf) as Hcl. split; [|exact Hcl].
+    destruct (zck_close H hd st') as [cl st2] eqn:Ecl. cbn [fst] in Hcl. subst cl.
+    destruct (final_spec_n H zdecomp hd f Hstarts Hsizes Hn Hnonempty out st' st2 HC Hf Ecl) as [_ Hd]. congruence.
+  - intros Hl. apply R3. cbn. lia.
+Qed.
+End ProgressN.
 End Complete.
+
+(** ** reader completeness, both compression types.
+    [read_all] performs one zck_read per buffer size until a call returns 0 bytes
+    ([Some true]), a call fails ([Some false]) or the size list is used up ([None]).
+    On a file the specification verifies and decodes to [D]: no call ever fails; if a call
+    returned 0 the bytes handed out before are exactly [D] and zck_close returns true; and a
+    call does return 0 as soon as the list has more than [len D] sizes (every earlier call
+    hands out at least one byte).  Fuel: [fuel_bound] = 3 * body length + 2 * entries + 1 loop
+    iterations per call.  No other side condition: an entry with no stored bytes and a
+    non-zero declared size is handled (zstd) or excluded by spec_decode itself (type 0). *)
+Theorem read_complete H zdecomp hd f D fuel sizes :
+  starts_ok 0 (h_chunks hd) -> data_total (h_chunks hd) < two64 -> h_chunks hd <> [] ->
+  spec_verify H hd f = true -> spec_decode zdecomp hd f = Some D ->
+  (fuel_bound hd f <= fuel)%nat -> Forall (fun n => 0 < n) sizes ->
+  match read_all H zdecomp hd fuel (open_state hd f) sizes [] with
+  | (out, e, st') =>
+      e <> Some false /\
+      (e = Some true -> out = D /\ fst (zck_close H hd st') = true) /\
+      (len D < N.of_nat (length sizes) -> e = Some true)
+  end.
+Proof.
+  intros Hst Hsz Hne Hv Hd Hfuel Hpos.
+  destruct (spec_to_ver H zdecomp hd f Hst Hsz Hne D Hv Hd) as (d0 & Hspec & Hfirst).
+  assert (Hdok : data_ok H hd (body hd f) = true).
+  { unfold spec_verify in Hv. apply andb_true_iff in Hv. tauto. }
+  destruct (is_zstd hd) eqn:Hz.
+  - exact (read_complete_z H zdecomp hd f Hst Hsz Hne Hz d0 D Hspec Hfirst Hdok Hd fuel sizes Hfuel Hpos).
+  - exact (read_complete_n H zdecomp hd f Hst Hsz Hne Hz d0 D Hspec Hfirst Hdok Hd fuel sizes Hfuel Hpos).
+Qed.
